@@ -14,7 +14,9 @@ RULE = ('one case = one generated program run through the real Session (NEW, ent
         '(jumps anywhere, compared with the Lean mechanism only). FOR bounds, LET values and ON selectors are also '
         'fractional constants (+-.4 .5 .6 1.5 2.5 .25 1/3 32767.4 32767.5 ...) on integer counters written I% or, '
         'under DEFINT J-K, without a sigil: they are converted (CINT) before the direction and the empty-loop test. '
-        'non-trivial = at least one loop, call or jump')
+        'Line numbers come from the whole range 0..65529 (0, 1 and 65529 included) and are targets of every '
+        'jump form of the model (GOTO, GOSUB, IF..THEN n, IF..GOTO n, ELSE n, ON..GOTO/GOSUB), forward and backward '
+        '(guarded loops made of jumps). non-trivial = at least one loop, call or jump')
 EXPLANATION = ('theorems (PcbV.Props.C19) on PcbV.Model.MiniBasic: FOR trip count, RETURN resumes after the call '
                'at any depth (stack discipline), ON selection, mismatch errors, Mech refines Spec for compiled '
                'FOR/WHILE nests and (PcbV.Model.MiniBasicX) for structured programs with IF..THEN..ELSE in statement '
@@ -95,9 +97,13 @@ def stext(s):
         return 'GOSUB %d' % s[1]
     if k == 'R':
         return 'RETURN'
+    if k == 'RT':
+        return 'RETURN %d' % s[1]
     if k == 'G':
         return 'GOTO %d' % s[1]
     if k == 'I':
+        if s[2] is not None and len(s) > 3 and s[3]:
+            return 'IF %s GOTO %d' % (etext(s[1]), s[2])
         return 'IF %s THEN' % etext(s[1]) + (' %d' % s[2] if s[2] is not None else '')
     if k == 'S':
         return 'ELSE' + (' %d' % s[1] if s[1] is not None else '')
@@ -151,15 +157,19 @@ def line_text(num, stmts):
 
 
 def prog_text(lines, defint=False):
-    """the BASIC text; with defint the counters J, K carry no sigil and line 1 declares them DEFINT
-    (line 1 is not part of the modelled program: it runs once, before everything, and is no jump target)"""
+    """the BASIC text; with defint the counters J, K carry no sigil and the first line starts with DEFINT J-K
+    (not part of the modelled program: the declaration is idempotent and changes no control flow; it cannot
+    be a line of its own because the program may use every line number from 0 on)"""
     global _names
     _names = NAMES_DEFINT if defint else NAMES
     try:
         text = [line_text(n, st) for n, st in lines]
     finally:
         _names = NAMES
-    return (['1 DEFINT J-K'] if defint else []) + text
+    if defint and text:
+        num, rest = text[0].split(' ', 1)
+        text[0] = '%s DEFINT J-K:%s' % (num, rest)
+    return text
 
 
 def frac(n, d, text=None):
@@ -207,6 +217,11 @@ class _Jump(Exception):
 
 class _Return(Exception):
     pass
+
+
+class _ReturnTo(Exception):
+    def __init__(self, label):
+        self.label = label
 
 
 class _Budget(Exception):
@@ -326,6 +341,11 @@ class Ref(object):
             if self.depth == 0:
                 raise _Err(3)
             raise _Return()
+        elif k == 'RETURNTO':
+            # RETURN n: the subroutine is left and execution continues at line n instead of after the call
+            if self.depth == 0:
+                raise _Err(3)
+            raise _ReturnTo(n[1])
         elif k == 'STRAY':
             raise _Err(n[2])
         else:
@@ -340,6 +360,8 @@ class Ref(object):
             raise ValueError('subroutine fell off its end')
         except _Return:
             pass
+        except _ReturnTo as e:
+            raise _Jump(e.label)      # (the `finally` below leaves the subroutine first)
         finally:
             self.depth -= 1
 
@@ -563,10 +585,18 @@ class Gen(object):
         self.nlabel += 1
         return 'L%d' % self.nlabel
 
-    def block(self, depth, vars_, counters, in_sub=False, sub_level=0, labels_out=None):
-        """a sequence of nodes; labels_out = labels of enclosing blocks that lie after the current point"""
+    def block(self, depth, vars_, counters, in_sub=False, sub_level=0, labels_out=None, top=False):
+        """a sequence of nodes; labels_out = labels of enclosing blocks that may be jumped to from here
+        (labels after the current point, and the guarded head labels of enclosing jump-made loops)"""
         r = self.rng
         labels_out = list(labels_out or [])
+        # a loop made of jumps: a label on the first line of the block (for the main program: the first line of
+        # the program, which gets the lowest line number, possibly 0), a guard, and backward jumps to it in every
+        # jump form (IF..THEN n, IF..GOTO n, ELSE n, GOTO n, ON..GOTO) from this block and the blocks inside it
+        back = None
+        if r.random() < (0.5 if top else 0.12):
+            back = self.new_label()
+            labels_out = labels_out + [back]
         n = r.choice([1, 2, 2, 3, 3, 4]) if depth > 0 else r.choice([3, 4, 5, 6])
         # forward labels of this block: (position index, name)
         own = []
@@ -622,6 +652,22 @@ class Gen(object):
             for l, s in zip(own, slots):
                 if s == i + 1:
                     nodes.append(('LABEL', l, self.mark()))
+        if back is not None:
+            x = r.random()
+            c = self.cond(vars_ + counters)
+            if x < 0.35:
+                j = ('IFGOTO', c, back, None)
+            elif x < 0.55:
+                j = ('IFGOTO', c, r.choice(labels_out), back)
+            elif x < 0.70:
+                j = ('GOTO', back)
+            elif x < 0.85:
+                j = ('ON', r.choice([lit(1), lit(2), self.atom(vars_ + counters)]), 'G',
+                     [back] + [r.choice(labels_out) for _ in range(r.choice([0, 1]))])
+            else:
+                j = ('IF', c, [self.simple(vars_, counters), ('GOTO', back)], None)
+            nodes.insert(r.randrange(len(nodes) + 1), j)
+            nodes = [('LABEL', back, self.mark())] + self.guard() + nodes
         # nested comma form: a FOR that ends with a FOR
         return self.merge_next(nodes)
 
@@ -638,7 +684,7 @@ class Gen(object):
 
     def program(self):
         r = self.rng
-        main = self.block(r.choice([1, 2, 2, 3]), [3, 4, 5], [])
+        main = self.block(r.choice([1, 2, 2, 3]), [3, 4, 5], [], top=True)
         main.append(('P', lit(self.mark())))
         main.append(('END',))
         return main, self.subs
@@ -692,8 +738,10 @@ class Layout(object):
                 if n[3] is not None:
                     out.append(('S', None))
                     out += self.inline(n[3])
+            elif k == 'ON':
+                out.append(('O', 's' if n[2] == 'S' else 'g', n[1], [('ref', t) for t in n[3]]))
             elif k == 'IFGOTO':
-                out.append(('I', n[1], ('ref', n[2])))
+                out.append(('I', n[1], ('ref', n[2]), self.rng.random() < 0.3))
                 if n[3] is not None:
                     out.append(('S', ('ref', n[3])))
             else:
@@ -743,6 +791,9 @@ class Layout(object):
                 self.add(('W', n[1]))
                 self.emit(n[2])
                 self.add(('D',))
+            elif k == 'RETURNTO':
+                self.add(('RT', ('ref', n[1])), False)
+                self.flush()
             elif k == 'STRAY':
                 self.add(n[1], False)
                 self.flush()
@@ -764,10 +815,10 @@ class Layout(object):
         for num, st in zip(nums, self.lines):
             ns = []
             for s in st:
-                if s[0] in ('U', 'G'):
+                if s[0] in ('U', 'G', 'RT'):
                     s = (s[0], res(s[1]))
                 elif s[0] == 'I':
-                    s = ('I', s[1], res(s[2]))
+                    s = ('I', s[1], res(s[2])) + tuple(s[3:])
                 elif s[0] == 'S':
                     s = ('S', res(s[1]))
                 elif s[0] == 'O':
@@ -873,7 +924,9 @@ def gen_random(pseed):
     rng = random.Random(pseed)
     nlines = rng.choice([3, 4, 6, 8, 10])
     limit = rng.choice([8, 15, 25])
-    guards = [10 + 20 * i for i in range(nlines)]
+    # with `extra` the last line of the program is a guard line, hence a jump target, too
+    extra = rng.random() < 0.5
+    guards = [10 + 20 * i for i in range(nlines + (1 if extra else 0))]
     lines = []
     cnt = [0, 1, 2]
     vs = [0, 1, 2, 3, 4]
@@ -936,6 +989,9 @@ def gen_random(pseed):
         while len(st) < n:
             st.append(stmt(len(st) == 0, len(st) == n - 1))
         lines.append((guards[i] + 10, st))
+    if extra:
+        lines.append((guards[-1], [('L', GUARD, ('add', var(GUARD), lit(1))), ('I', ('gt', var(GUARD), lit(limit)), None),
+                                   ('E',)]))
     return lines
 
 
@@ -1046,6 +1102,43 @@ def fixed_programs():
         one('on-goto-%d' % n, [('ON', lit(n), 'G', ['L1', 'L2', 'L3']), ('P', lit(9)), ('END',),
                                ('LABEL', 'L1', 1), ('END',), ('LABEL', 'L2', 2), ('END',), ('LABEL', 'L3', 3),
                                ('END',)])
+    # loops made of jumps back to the first line of the program, numbered 0, 1 or anything, in every jump form
+    def jump_loop(name, jump, goto_form, nums_of):
+        main = [('LABEL', 'H', 500), ('L', 3, ('add', var(3), lit(1))), ('P', var(3)), jump, ('P', lit(77)), ('END',),
+                ('LABEL', 'X', 600), ('P', lit(78)), ('END',)]
+        lines = layout(random.Random(7), main, {}, pack=0.0)
+        lines = [(n, [(x[:3] + (goto_form,) if x[0] == 'I' and x[2] is not None else x) for x in st]) for n, st in lines]
+        progs.append((name, main, {}, renumber_to(lines, nums_of(len(lines)))))
+
+    more = ('lt', var(3), lit(3))
+    forms = [('then', ('IFGOTO', more, 'H', None), False), ('if-goto', ('IFGOTO', more, 'H', None), True),
+             ('else', ('IFGOTO', ('ge', var(3), lit(3)), 'X', 'H'), False),
+             ('else/if-goto', ('IFGOTO', ('ge', var(3), lit(3)), 'X', 'H'), True),
+             ('then-goto', ('IF', more, [('GOTO', 'H')], None), False),
+             ('else-goto', ('IF', ('ge', var(3), lit(3)), [('P', lit(5))], [('GOTO', 'H')]), False),
+             ('on-goto', ('IF', more, [('ON', lit(2), 'G', ['X', 'H'])], None), False)]
+    schemes = [('0', lambda n: [10 * i for i in range(n)]), ('1', lambda n: [1 + 7 * i for i in range(n)]),
+               ('0..', lambda n: list(range(n))), ('..65529', lambda n: [65529 - (n - 1 - i) for i in range(n)])]
+    for fname, jump, gf in forms:
+        for sname, nums_of in schemes:
+            jump_loop('jump-loop/%s/from-%s' % (fname, sname), jump, gf, nums_of)
+    # RETURN n (not part of the Lean model: compared with the reference interpreter only)
+    for sname, nums_of in schemes[:3] + [('10', lambda n: [10 * (i + 1) for i in range(n)])]:
+        main = [('LABEL', 'H', 500), ('IF', ('eq', var(3), lit(1)), [('P', lit(9)), ('END',)], None), ('L', 3, lit(1)),
+                ('GOSUB', 'S1'), ('P', lit(1)), ('END',)]
+        subs = {'S1': [('P', lit(2)), ('GOSUB', 'S2'), ('P', lit(3)), ('RETURN',)],
+                'S2': [('P', lit(4)), ('RETURNTO', 'H')]}
+        lines = layout(random.Random(7), main, subs, pack=0.0)
+        progs.append(('return-n/to-%s/nomodel' % sname, main, subs, renumber_to(lines, nums_of(len(lines)))))
+    # the last line of the program (65529) as the target of a forward jump
+    for fname, jump, gf in [('then', ('IFGOTO', lit(1), 'X', None), False), ('if-goto', ('IFGOTO', lit(1), 'X', None), True),
+                            ('else', ('IFGOTO', lit(0), 'H2', 'X'), False), ('goto', ('GOTO', 'X'), False),
+                            ('on-goto', ('ON', lit(1), 'G', ['X']), False)]:
+        main = [('P', lit(1)), jump, ('LABEL', 'H2', 2), ('END',), ('LABEL', 'X', 3)]
+        lines = layout(random.Random(7), main, {}, pack=0.0)
+        lines = [(n, [(x[:3] + (gf,) if x[0] == 'I' and x[2] is not None else x) for x in st]) for n, st in lines]
+        progs.append(('jump-to-last-line/%s' % fname, main, {},
+                      renumber_to(lines, [65529 - 100 * (len(lines) - 1 - i) for i in range(len(lines))])))
     # a NEXT / WEND executed again after its loop has ended (reached by GOTO): mismatched, whatever stale
     # records early exits have left behind
     def again(name, loop, closer, err):
@@ -1164,6 +1257,31 @@ def classify(main, subs, ctx):
         ctx.count('node:' + k)
 
 
+def count_numbers(lines, ctx):
+    nums = set(n for n, _ in lines)
+    for edge in (0, 1, 65529):
+        if edge in nums:
+            ctx.count('numbering:has-line-%d' % edge)
+    for _, st in lines:
+        for x in st:
+            tg = []
+            if x[0] == 'G':
+                tg = [('goto', x[1])]
+            elif x[0] == 'RT':
+                tg = [('return-n', x[1])]
+            elif x[0] == 'U':
+                tg = [('gosub', x[1])]
+            elif x[0] == 'I' and x[2] is not None:
+                tg = [('if-goto' if len(x) > 3 and x[3] else 'if-then', x[2])]
+            elif x[0] == 'S' and x[1] is not None:
+                tg = [('else', x[1])]
+            elif x[0] == 'O':
+                tg = [('on-' + ('gosub' if x[1] == 's' else 'goto'), t) for t in x[3]]
+            for form, t in tg:
+                if t in (0, 1, 65529) and t in nums:
+                    ctx.count('jump:%s->%d' % (form, t))
+
+
 def count_fracs(lines, ctx):
     for _, st in lines:
         for x in st:
@@ -1185,11 +1303,13 @@ def run_batch(ctx, impl, progs):
     outs, protos, cases = [], [], []
     for name, main, subs, lines, case in progs:
         out = impl.run(prog_text(lines, case.get('defint', False)))
-        outs.append(out)
-        protos.append('run 1 %d %s' % (FUEL, prog_proto(lines)))
-        cases.append(case)
+        if not name.endswith('/nomodel'):
+            outs.append(out)
+            protos.append('run 1 %d %s' % (FUEL, prog_proto(lines)))
+            cases.append(case)
         ctx.case(('prog', name))
         count_fracs(lines, ctx)
+        count_numbers(lines, ctx)
         st = out.split()[-1] if out.startswith('ok ') else out.split()[0]
         ctx.count('status:' + st)
         if main is not None:
@@ -1201,6 +1321,73 @@ def run_batch(ctx, impl, progs):
     return outs
 
 
+def pick_numbers(rng, n):
+    """n ascending line numbers from the whole range 0..65529"""
+    x = rng.random()
+    if x < 0.30:
+        return [10 * (i + 1) for i in range(n)]
+    if x < 0.45:
+        return [10 * i for i in range(n)]
+    if x < 0.55:
+        return list(range(n))
+    if x < 0.62:
+        return list(range(1, n + 1))
+    if x < 0.70:
+        return [65529 - 10 * (n - 1 - i) for i in range(n)]
+    nums = set()
+    if rng.random() < 0.6:
+        nums.add(0)
+    if rng.random() < 0.5:
+        nums.add(1)
+    if rng.random() < 0.6:
+        nums.add(65529)
+    if rng.random() < 0.3:
+        nums.add(65528)
+    while len(nums) < n:
+        nums.add(rng.choice([rng.randrange(2, 300), rng.randrange(2, 65528)]))
+    nums = sorted(nums)
+    while len(nums) > n:
+        nums.pop(rng.randrange(len(nums)))
+    return nums
+
+
+def renumber(rng, lines):
+    """the same program with other line numbers (every jump target follows; a target that exists nowhere
+    stays a number that exists nowhere)"""
+    return renumber_to(lines, pick_numbers(rng, len(lines)))
+
+
+def renumber_to(lines, new):
+    old = [n for n, _ in lines]
+    m = dict(zip(old, new))
+    used = set(new)
+    undef = {}
+
+    def t(x):
+        if x is None or x in m:
+            return m.get(x, x) if x is not None else None
+        if x not in undef:
+            u = next(c for c in (9, 5, 15, 999, 7, 65000, 12345, 3, 4, 6, 8, 11, 13, 65527) if c not in used)
+            used.add(u)
+            undef[x] = u
+        return undef[x]
+    out = []
+    for n, st in lines:
+        ns = []
+        for s in st:
+            if s[0] in ('U', 'G', 'RT'):
+                s = (s[0], t(s[1]))
+            elif s[0] == 'I':
+                s = ('I', s[1], t(s[2])) + tuple(s[3:])
+            elif s[0] == 'S':
+                s = ('S', t(s[1]))
+            elif s[0] == 'O':
+                s = ('O', s[1], s[2], [t(x) for x in s[3]])
+            ns.append(s)
+        out.append((m[n], ns))
+    return out
+
+
 def make(kind, pseed):
     if kind == 'struct':
         main, subs, lines = gen_structured(pseed)
@@ -1210,7 +1397,7 @@ def make(kind, pseed):
         main, subs, lines = None, {}, gen_random(pseed)
     else:
         raise ValueError(kind)
-    return main, subs, lines
+    return main, subs, renumber(random.Random(pseed ^ 0x5bd1e995), lines)
 
 
 def run(ctx):
